@@ -16,8 +16,23 @@ from .common import *
 
 
 def worker(job):
-    repo, L, B, sets, ndev, keyed, explicit_devices, single = job
+    repo, L, B, sets, ndev, keyed, explicit_devices, single = job[:8]
+    concrete = job[8] if len(job) > 8 else None
     it, w = get_interp(repo, n_devices=ndev)
+    w.concrete_permutation = list(concrete) if concrete is not None else None
+    try:
+        return _worker(it, w, L, B, sets, ndev, keyed, explicit_devices, single, concrete)
+    except Unsupported as e:
+        # the implementation looks at the VALUES of the index vector (int(idx[0]), a comparison, a sort ...): the opaque
+        # symbol cannot follow that; such code is decided by the case split over all permutations of small ranges
+        if keyed and concrete is None and ("symbolic" in str(e) or "data-dependent" in str(e)):
+            return dict(cfg=dict(L=L, B=B, devices=ndev, key="opaque", type_sets=[[list(t) for t in s_] for s_ in sets], deferred="value-dependent handling of the index vector (%s): decided by the case split over concrete permutations" % e), problems=[])
+        raise
+    finally:
+        w.concrete_permutation = None
+
+
+def _worker(it, w, L, B, sets, ndev, keyed, explicit_devices, single, concrete):
     ml = it.get_module("ginjax.ml")
     D = 2
     sp = (2, 3)
@@ -31,7 +46,8 @@ def worker(job):
 
     key = Key(0) if keyed else None
     devs = ["d%d" % i for i in range(ndev)] if explicit_devices else None
-    cfg = dict(L=L, B=B, type_sets=[[list(t) for t in s] for s in sets], devices=ndev, key="opaque" if keyed else None, explicit_devices=explicit_devices, single_image_argument=single)
+    cfg = dict(L=L, B=B, type_sets=[[list(t) for t in s] for s in sets], devices=ndev, key=("opaque" if concrete is None else "permutation %s" % list(concrete)) if keyed else None, explicit_devices=explicit_devices, single_image_argument=single)
+    del w.trace[:]
     arg = images[0] if single else tuple(images)
     res = attempt(lambda: ml.get_batches(arg, B, key, devs))
     problems = []
@@ -52,7 +68,7 @@ def worker(job):
             problems.append(("index-vector", "%d permutations were drawn (sizes %s); exactly one permutation of range(L=%d) must order all co-batched multi-images" % (len(perms_made), [p[2] for p in perms_made], L), perms_made[1][3] if len(perms_made) > 1 else None))
             return dict(cfg=cfg, problems=problems)
         pname = perms_made[0][1]
-        idx = A.Arr((L,), [Poly.leaf(pname, (i,)) for i in range(L)], "int")
+        idx = A.Arr((L,), [Poly.leaf(pname, (i,)) for i in range(L)], "int") if concrete is None else A.Arr((L,), list(concrete), "int")
     else:
         if perms_made:
             problems.append(("index-vector", "a permutation was drawn although no key was given (order must be the identity)", perms_made[0][3]))
@@ -137,11 +153,26 @@ def run(ctx):
                         for expl in (False, True) if ctx.thorough() else (keyed,):
                             jobs.append((ctx.repo, L, B, sets, ndev, keyed, expl, False))
         jobs.append((ctx.repo, L, 2, setsA[1][:1], 1, True, False, True))
+    # case split: every permutation of a small range as the value of the shuffle (an implementation may branch on
+    # the values of the index vector -- contiguous runs, sortedness -- which the opaque symbol cannot follow)
+    import itertools
+
+    for L, Bs in ((4, (2, 3, 4)), (5, (3, 4))) + (((6, (3, 4, 6)),) if ctx.thorough() else ()):
+        for pi, perm in enumerate(itertools.permutations(range(L))):
+            if L == 6 and pi % 3:
+                continue
+            for B in Bs:
+                if not ctx.thorough() and L == 5 and (pi + B) % 2:
+                    continue
+                jobs.append((ctx.repo, L, B, setsA[1], 2 if B % 2 == 0 and pi % 2 else 1, True, False, False, perm))
     results = ctx.pairs(worker, jobs)
     by = {}
     for job, r in results:
         cfg = r["cfg"]
         nontriv = len(cfg["type_sets"]) >= 2 or cfg["key"] is not None or cfg["L"] % cfg["B"] != 0
+        if cfg.get("deferred"):
+            ev.extra["opaque_permutation_deferred_to_case_split"] = ev.extra.get("opaque_permutation_deferred_to_case_split", 0) + 1
+            continue
         ev.obligation("batches", not r["problems"], tuple(str(v) for v in cfg.values()) if nontriv else None, sample=cfg if ev.obligations % 41 == 0 else None)
         for kind, what, site in r["problems"]:
             by.setdefault(kind, []).append((what, site, cfg))
